@@ -152,6 +152,8 @@ type xcfg struct {
 	// location labels are configured so that the label comparison code runs.
 	Missing int
 	Labels  bool
+	Chain   bool   // spell every SetPeers request also as a RemovePeer/AddPeer/PromoteLearner/DemoteVoter chain
+	Rules   string // "" = off, "default" = placement rules on with the unconstrained default rule
 }
 
 func (c *xcfg) family() string {
@@ -166,6 +168,9 @@ func (c *xcfg) family() string {
 
 func (c *xcfg) world() *world {
 	w := &world{Mode: c.Mode, Rules: "off", LocationLabels: c.Labels}
+	if c.Rules != "" {
+		w.Rules = c.Rules
+	}
 	for i := 0; i < c.S-c.Missing; i++ {
 		st := stUp
 		if i < len(c.States) && c.States[i] != "" {
@@ -332,6 +337,15 @@ func (rn *runner) runItem(c *xcfg, w *world, cl *cluster, it xitem) {
 				q.API = apiScatter // the same request through CreateScatterRegionOperator
 			}
 			run(q)
+			if c.Chain {
+				// the same target spelled peer by peer
+				run(request{API: apiChain, Target: target, Leader: uint64(i + 1), ChainOrder: "remove-first"})
+				run(request{API: apiChain, Target: target, Leader: uint64(i + 1), ChainOrder: "add-first"})
+			}
+		}
+		if c.Chain {
+			run(request{API: apiChain, Target: target, ChainOrder: "remove-first"})
+			run(request{API: apiChain, Target: target, ChainOrder: "add-first"})
 		}
 	}
 	// B: expected roles
@@ -403,7 +417,11 @@ func exhaustiveConfigs(r *ev.Run) []xcfg {
 	for S := 2; S <= maxS; S++ {
 		for _, m := range allModes {
 			// all stores up: plain and light+force (= scatter) variants
-			cfgs = append(cfgs, xcfg{Name: fmt.Sprintf("S%d/%s/all-up", S, m), S: S, Mode: m, Roles: true, Helpers: true, Joint: m != modeLegacy && S <= 4})
+			cfgs = append(cfgs, xcfg{Name: fmt.Sprintf("S%d/%s/all-up", S, m), S: S, Mode: m, Roles: true, Helpers: true, Joint: m != modeLegacy && S <= 4, Chain: S <= 4})
+			if S <= 4 {
+				// placement rules on with the default rule (the builder then fits the region and matches rules)
+				cfgs = append(cfgs, xcfg{Name: fmt.Sprintf("S%d/%s/all-up/default-rules", S, m), S: S, Mode: m, Rules: "default", Roles: S <= 3, Helpers: true})
+			}
 			cfgs = append(cfgs, xcfg{Name: fmt.Sprintf("S%d/%s/all-up/light+force", S, m), S: S, Mode: m, Light: true, Force: true, Roles: S <= 4})
 		}
 	}
@@ -494,6 +512,11 @@ var ruleTemplates = [][]ruleDesc{
 	{{ID: "followers", Role: "follower", Count: 2}, {ID: "leader", Role: "leader", Count: 1, Zones: []string{"z2", "z3"}}},
 }
 
+var labelVariants = [][]string{
+	{"NoLeader", "true"}, {"noleader", "TRUE"}, {"noleader", ""}, {"NOLEADER", "true", "noleader", "false"},
+	{"Zone", "z9"}, {"ZONE", ""}, {"zone", "Z1"}, {"host", "h1,h2"}, {"zone", "z1/z2"}, {"", "x"},
+}
+
 func randomWorld(rng *rand.Rand) *world {
 	w := &world{Mode: allModes[rng.Intn(len(allModes))]}
 	S := 3 + rng.Intn(4)
@@ -503,8 +526,14 @@ func randomWorld(rng *rand.Rand) *world {
 		if rng.Intn(100) >= pUp {
 			st = hostileStates[rng.Intn(len(hostileStates))]
 		}
-		w.Stores = append(w.Stores, storeDesc{ID: uint64(i), State: st,
-			Zone: fmt.Sprintf("z%d", 1+rng.Intn(3)), Host: fmt.Sprintf("h%d", 1+rng.Intn(2))})
+		sd := storeDesc{ID: uint64(i), State: st,
+			Zone: fmt.Sprintf("z%d", 1+rng.Intn(3)), Host: fmt.Sprintf("h%d", 1+rng.Intn(2))}
+		if rng.Intn(4) == 0 {
+			// label spellings pd's readers treat differently (case-insensitive key lookup, first label wins,
+			// empty value = unset, exact match for the reject-leader property)
+			sd.Extra = labelVariants[rng.Intn(len(labelVariants))]
+		}
+		w.Stores = append(w.Stores, sd)
 	}
 	w.LocationLabels = rng.Intn(2) == 0
 	switch x := rng.Intn(4); {
@@ -861,6 +890,7 @@ func main() {
 		livePhase(r, workers, merge)
 		concurrentPhase(r, merge)
 		flipPhase(r, workers, merge)
+		spellPhase(r, workers, merge)
 		r.Exhaustive(true)
 		r.Set("exhaustive_max_stores", r.Pick(4, 5))
 		r.Floor(int64(r.Pick(100000, 100000)))
